@@ -258,6 +258,21 @@ func ruleW6(c *Ctx) {
 	}
 }
 
+// W7: the header list the signature is computed from does not lose a header that fits (shared with C13-K4): the
+// header slot &Hdrs[N] is selected exactly when N < len(Hdrs).
+func ruleW7(c *Ctx) {
+	t := &Ctx{Prog: c.Prog, Prop: c.Prop}
+	ruleK4(t)
+	for _, o := range t.obls {
+		if strings.Contains(o.Key, "ParseHeaders") {
+			o.Key = "W7:" + strings.TrimPrefix(o.Key, "K4:")
+			o.Rule = "W7"
+			c.obls = append(c.obls, o)
+		}
+	}
+	c.expectMin("W7", 1)
+}
+
 func init() {
 	register(&PropDef{
 		ID: "C19",
@@ -266,6 +281,7 @@ func init() {
 			{"W2", "first occurrence only: the contribution block is guarded by !seen.Test(type) and starts with seen.Set(type); a value is read only for Via; replies return no signature first (W4)", ruleW2},
 			{"W3", "tables: the eight fingerprinted headers, ids below the compact bit and within one hex digit, one HdrSig slot per header, compact bit iff name length 1, Contact only for INVITE, at most eight entries, explicit truncation indication", ruleW3},
 			{"W5", "text rendering: every table index in MsgSig.String is discharged by the index-guard rules (masked with 0xf, or the named HdrSig exception)", ruleW5},
+			{"W7", "array-size independence at the source: ParseHeaders stores a header in the caller's array exactly when N < len(Hdrs) (C13-K4), so a message whose header count equals the capacity is fingerprinted from all of its headers", ruleW7},
 			{"W6", "Via branch extraction: flag set, branch name test, magic prefix; its index/slice expressions are guarded", ruleW6},
 		},
 		Assumptions: []string{"MsgSig.HdrSigLen is only produced by GetMsgSig"},
